@@ -15,6 +15,11 @@ def load(
 ):
     """Exposed as fickling.load()"""
     pickled_data = Pickled.load(file)
+    # Parsing reads the stream more than once (arguments are decoded by pickletools, the raw bytes
+    # of each opcode are re-read afterwards), so a stream that changes meanwhile could make the
+    # analysed arguments differ from the bytes that get executed. Re-parse the serialised bytes:
+    # from here on the analysis and pickle.loads() see one and the same immutable byte string.
+    pickled_data = Pickled.load(pickled_data.dumps())
     result = check_safety(pickled=pickled_data, json_output_path=json_output_path)
     if result.severity <= max_acceptable_severity:
         # We don't do pickle.load(file) because it could allow for a race
